@@ -81,6 +81,8 @@ type caller struct {
 	startSeq  int
 	finishSeq int
 	returnSeq int
+	// the queue worker was parked holding an execution permit when this caller was answered
+	workerHeldPermit bool
 }
 
 type system struct {
@@ -251,9 +253,11 @@ func (s *system) call(c *caller) {
 		s.mu.Unlock()
 		return r
 	})
+	held := len(clock.Parked()) > 0
 	s.mu.Lock()
 	c.returned = true
 	c.ret = err
+	c.workerHeldPermit = held
 	s.seq++
 	c.returnSeq = s.seq
 	s.mu.Unlock()
@@ -299,7 +303,11 @@ func (s *system) Check(report events.Reporter) {
 				report("not-run-but-caller-got-success", fmt.Sprintf("request %d was never executed but its caller got nil", c.idx))
 			}
 		case c.startSeq > c.returnSeq:
-			report("ran-after-caller-was-answered:"+classify(c.ret), fmt.Sprintf("request %d started executing after its caller had already been answered with %s", c.idx, errStr(c.ret)))
+			when := ":worker-was-waiting-for-the-permit"
+			if c.workerHeldPermit {
+				when = ":worker-held-the-permit"
+			}
+			report("ran-after-caller-was-answered:"+classify(c.ret)+when, fmt.Sprintf("request %d started executing after its caller had already been answered with %s", c.idx, errStr(c.ret)))
 		case !c.finished || c.returnSeq < c.finishSeq:
 			// the caller was answered while its request was still executing: it cannot hold that run's result
 			key := "ran-but-caller-got-other-answer"
